@@ -3,6 +3,7 @@ import props.c01 as c01, props.c02 as c02, props.c03 as c03, props.c07 as c07, p
 from props.bngen import hx
 
 EXTRA_THEOREM_MODULES = ["RelicVerif.Lemmas.Bounds"]
+GENERATED = ["params"]
 TRUSTED = [
     "proved part: the length bookkeeping of the modelled functions (Lemmas/Bounds.lean): results fit the capacity / the caller's buffer or the "
     "model returns an error; these are theorems about the models, tied to the code by the C01/C07/C09/C14 correspondence runs",
@@ -142,7 +143,33 @@ def streams(ctx, scale=1):
         n = (1500 if ctx.tier == "quick" else 40000) * scale
         res.append({"name": "san-boundary-" + cfg, "cfg": SANMAP[cfg], "exe": exe, "ref_exe": ref, "crash_only": True, "tscale": 8, "env": env,
                     "lines": ["cfg"] + boundary_lines(ctx.rng, kv["w"], kv["size"], kv["digs"], n)})
+    res.append(select_stream(ctx, scale))
     return res
+
+
+def select_stream(ctx, scale=1):
+    """'an unsupported parameter is reported': fp_param_set / ep_param_set with every identifier value around the enumerations (and a few
+    far outside); the driver decides from the parameter table extracted from the source which identifiers are selectable in this build,
+    expects the others to be reported with nothing installed, and judges the probe lines that follow under the selection that was active
+    before (the library remains usable and unchanged)"""
+    exe = c03._exe(ctx, SANMAP["base"])
+    rng = ctx.rng
+    cid = list(c03.CURVES["base"])[0]
+    cv = c03.Cv(c03.curve_info(exe, cid))
+    ids = list(range(0, 96)) + [127, 128, 255, 256, 1000, 65535, 65536, 2147483647, -1, -2]
+    lines = ["cfg", "ep_param %d" % cid]
+    for rep in range(scale):
+        order = [("fp_sel", i) for i in ids] + [("ep_sel", i) for i in ids]
+        for i in range(len(order) - 1, 0, -1):
+            j = rng.below(i + 1)
+            order[i], order[j] = order[j], order[i]
+        for op, i in order:
+            lines.append("%s %d" % (op, i))
+            # whatever happened, the curve is selected again and must work
+            lines.append("ep_param %d" % cid)
+            lines += [l for l in c03.gen_lines(rng, cv, 2)[:2] if not l.startswith("#")]
+    return {"name": "select-base", "cfg": SANMAP["base"], "exe": exe, "tscale": 8, "lines": lines,
+            "env": {"ASAN_OPTIONS": "detect_leaks=0:abort_on_error=0:allocator_may_return_null=1", "UBSAN_OPTIONS": "print_stacktrace=1"}}
 
 
 def search_streams(ctx, mfail):
